@@ -4,10 +4,12 @@ pub mod c01;
 pub mod c02;
 pub mod c04;
 pub mod c06;
+pub mod c10;
 pub mod c14;
 pub mod c15;
 pub mod c16;
 pub mod c17;
+pub mod c18;
 
 pub fn get(id: &str, tier: Tier, seed: u64) -> Option<Prop> {
     Some(match id {
@@ -15,10 +17,12 @@ pub fn get(id: &str, tier: Tier, seed: u64) -> Option<Prop> {
         "C02" => c02::prop(tier, seed),
         "C04" => c04::prop(tier, seed),
         "C06" => c06::prop(tier, seed),
+        "C10" => c10::prop(tier, seed),
         "C14" => c14::prop(tier, seed),
         "C15" => c15::prop(tier, seed),
         "C16" => c16::prop(tier, seed),
         "C17" => c17::prop(tier, seed),
+        "C18" => c18::prop(tier, seed),
         _ => return None,
     })
 }
